@@ -33,8 +33,8 @@ ASSUMPTIONS = [
     "positional and keyword call forms may or may not share an entry (unspecified)",
 ]
 BOUNDS = {
-    "quick": {"L": 6, "L_sync": 5, "L_method": 5, "limits": [1, 2, 3]},
-    "thorough": {"L": 7, "L_sync": 6, "L_method": 6, "limits": [1, 2, 3]},
+    "quick": {"L": 6, "L_sync": 5, "L_method": 5, "limits": [1, 2, 3], "note": "+1 for the sync variant without expiration"},
+    "thorough": {"L": 7, "L_sync": 6, "L_method": 6, "limits": [1, 2, 3], "note": "+1 for the sync variant without expiration"},
 }
 EXHAUSTIVE = {"quick": True, "thorough": True}
 SAMPLE_EVERY = {"quick": 40000, "thorough": 900000}
@@ -67,7 +67,8 @@ def programs(tier: str):
         L = BOUNDS[tier]["L_method" if variant in ("msync", "masync") else ("L_sync" if variant == "sync" else "L")]
         for limit in BOUNDS[tier]["limits"]:
             for expiration in (None, 2, 5):
-                yield {"variant": variant, "limit": limit, "expiration": expiration, "L": L}
+                # without the two clock operations the alphabet is smaller: one step deeper
+                yield {"variant": variant, "limit": limit, "expiration": expiration, "L": L + (1 if expiration is None and variant == "sync" else 0)}
     # methods called in keyword form with ==-equal differently typed values, on receivers whose
     # instances are falsy (empty containers) or not
     for variant in ("msync", "masync"):
